@@ -31,9 +31,13 @@ REACH_PROBES = ['after_polluting_case_in_a_suite', 'second_use_of_program_symbol
 
 WORDS = ['a', 'bb', 'c-d', 'x.y', 'k=v', '7', 'A_B', 'p/q', 'm:n', 'u,v']
 SYMDEFS = ["def string STR1 = s1val", "def string STR2 = 'two words'", "def list LST1 = l1 'l 2' l3", "def list LST0 =",
-           "def path PTH1 = -rel-act pdir/pf"]
+           "def path PTH1 = -rel-act pdir/pf",
+           # a path relative to the current directory (the default relativity): it denotes the file under the directory that
+           # is current at the USE - it is used once right here (by a warm-up program) and again wherever the plan says,
+           # possibly after a `cd`
+           "def path PCD1 = cdfile.txt", "% warm @[PCD1]@"]
 SYMS = {'STR1': ('string', 's1val'), 'STR2': ('string', 'two words'), 'LST1': ('list', ['l1', 'l 2', 'l3']),
-        'LST0': ('list', []), 'PTH1': ('path', '$SBX/act/pdir/pf')}
+        'LST0': ('list', []), 'PTH1': ('path', '$SBX/act/pdir/pf'), 'PCD1': ('path', '$CWD/cdfile.txt')}
 PHASES = ['setup', 'before-assert', 'assert', 'cleanup']
 PLACES = ([('run', ph) for ph in PHASES] + [('run_ignore', ph) for ph in PHASES] +
           [('act_command_line', 'act'), ('act_file_interpreter', 'act'), ('act_source_interpreter', 'act'),
@@ -603,8 +607,8 @@ def expected_spawn(plan):
         stdin = 'input text'
     if pk == 'matcher':
         stdin = 'g-contents'
-    args = [v for a in m['args'] for v in a['val']]
     cwd = '$SBX/act/pdir' if plan['cd'] else '$SBX/act'
+    args = [v.replace('$CWD', cwd) for a in m['args'] for v in a['val']]
     if m['shell']:
         line = m['line']
         if pk == 'file_matcher':
@@ -654,7 +658,7 @@ def oracle(plan, hist):
     T = plan['procs']['T']
     target = [s for s in hist['spawns'] if s['tag'] == 'T']
     if pk == 'act_null':
-        own = [s for s in hist['spawns'] if s['raw_tag'] != 'polluter-prog']
+        own = [s for s in hist['spawns'] if s['raw_tag'] not in ('polluter-prog', 'warm')]
         if own:
             bad('null_actor_starts_nothing', [], [s['tag'] for s in own])
         if ident != 'PASS':
@@ -674,7 +678,8 @@ def oracle(plan, hist):
         second = target[-1] if len(target) >= 2 else None
         target = target[:-1] if second is not None else target
         n_use = m['use_n_args']
-        base_args = [v for a in (m['args'][:len(m['args']) - n_use] if n_use else m['args']) for v in a['val']]
+        base_args = [v.replace('$CWD', '$SBX/act') for a in (m['args'][:len(m['args']) - n_use] if n_use else m['args'])
+                     for v in a['val']]
         base_stdin = ''.join(p['val'] for p in (m['stdin'][:-1] if m['use_has_stdin'] else m['stdin']))
         want2 = {'shell': False, 'args': list(m['head']) + base_args + ['second-use'], 'stdin': base_stdin, 'cwd': '$SBX/act'}
         if second is None:
